@@ -1,6 +1,7 @@
 #!/usr/bin/env python3
-"""prints the rows of DESIGN.md 8.2 from the SUMMARY lines of two log directories
-usage: sizetable.py <dir with quick logs allq-Cxx.log> <dir with thorough logs>"""
+"""rewrites the size columns of the table in DESIGN.md 8.2 from the SUMMARY lines of
+two log directories (tools/allquick.sh writes /tmp/allq-Cxx.log; copy them aside per tier)
+usage: sizetable.py <dir with quick logs> <dir with thorough logs>"""
 import re, sys
 def read(d, c):
     t = open(f'{d}/allq-{c}.log').read()
@@ -9,9 +10,15 @@ def read(d, c):
 def fmt(n):
     n = int(n)
     if n >= 1000000: return f'{n/1e6:.1f} M'
-    if n >= 10000: return f'{n/1e3:.0f} k'
-    return str(n)
+    return f'{n:,}'.replace(',', ' ')
+p = '/verif/DESIGN.md'
+s = open(p).read()
 for i in range(1, 21):
     c = f'C{i:02d}'
     q = read(sys.argv[1], c); t = read(sys.argv[2], c)
-    print(f'| {c} | {fmt(q[2])} / {fmt(q[3])} / {float(q[5]):.0f} s | {fmt(t[2])} / {fmt(t[3])} / {float(t[5]):.0f} s |')
+    assert q[0] == 'quick' and t[0] == 'thorough', (c, q[0], t[0])
+    unit = {'C05': ' histories', 'C06': ' rounds'}.get(c, '')
+    row = re.search(r'^\| %s \| [^|]* \| [^|]* \| (.*) \|$' % c, s, re.M)
+    new = f'| {c} | {fmt(q[2])}{unit} / {float(q[5]):.0f} s | {fmt(t[2])}{unit} / {float(t[5]):.0f} s | {row.group(1)} |'
+    s = s[:row.start()] + new + s[row.end():]
+open(p, 'w').write(s)
